@@ -1,0 +1,76 @@
+//go:build verif
+
+// Verification hook (engine router2, property C15): the real processing loop with a saturated
+// slow-path queue.
+
+package router
+
+// verifR2CountLink wraps a link and counts the packets the processing loop hands to it.
+type verifR2CountLink struct {
+	Link
+	sent int
+}
+
+func (c *verifR2CountLink) Send(p *Packet) bool    { c.sent++; return true }
+func (c *verifR2CountLink) SendBlocking(p *Packet) { c.sent++ }
+
+// VerifR2LoopPacket is one packet for RunLoop: raw bytes and the interface whose link delivers it.
+type VerifR2LoopPacket struct {
+	Raw []byte
+	Via uint16
+}
+
+// RunLoop pushes the packets, one after the other, through the real processing loop
+// (dataPlane.runProcessor) with a slow-path queue of capacity slowCap that nobody reads (a
+// saturated slow path). It returns how many packets the loop sent over each interface's link
+// (keyed by the lowest interface id served by that link), how many it queued for the slow path,
+// and how many it returned to the pool. Only for data planes whose BFD sessions are not running.
+func (v *VerifR2DP) RunLoop(pkts []VerifR2LoopPacket, slowCap int) (sent map[uint16]int, slow int, pooled int) {
+	d := v.d
+	saved := d.interfaces
+	savedPool := d.packetPool
+	wrap := map[Link]*verifR2CountLink{}
+	first := map[*verifR2CountLink]uint16{}
+	for i := range d.interfaces {
+		l := d.interfaces[i]
+		if l == nil {
+			continue
+		}
+		w, ok := wrap[l]
+		if !ok {
+			w = &verifR2CountLink{Link: l}
+			wrap[l] = w
+			first[w] = uint16(i)
+		}
+		d.interfaces[i] = w
+	}
+	d.packetPool = makePacketPool(2*len(pkts)+8, minHeadroom)
+	q := make(chan *Packet) // unbuffered: a hand-over means the previous packet is done
+	slowQ := make(chan *Packet, slowCap)
+	d.setRunning()
+	done := make(chan struct{})
+	go func() {
+		defer close(done)
+		d.runProcessor(0, q, slowQ)
+	}()
+	for _, lp := range pkts {
+		p := v.newPacket(lp.Raw, lp.Via)
+		q <- p
+	}
+	// a last, undecodable packet: once it is taken, every earlier one has been processed
+	q <- v.newPacket([]byte{0}, 0)
+	d.setStopping()
+	close(q)
+	<-done
+	sent = map[uint16]int{}
+	for w, id := range first {
+		if w.sent > 0 {
+			sent[id] = w.sent
+		}
+	}
+	slow = len(slowQ)
+	pooled = len(d.packetPool.pool)
+	d.interfaces = saved
+	d.packetPool = savedPool
+	return sent, slow, pooled
+}
